@@ -80,7 +80,6 @@ void *malloc(size_t len)
 
     igris::syslock_guard lguard;
     __allocation_counter++;
-    assert(__allocation_counter < 100);
 
     struct __freelist *fp1, *fp2, *sfp1, *sfp2;
     char *cp;
